@@ -177,7 +177,7 @@ vharness! {
 }
 
 vharness! {
-    /// @prop C07,C05 @tier quick @mode fast @cost 2 @funcs Ref::branch_acquire,Mutex::is_locked,rt::branch,Execution::schedule @bounds 3 threads, mutex held by thread 0, thread 2 calls lock(); third thread symbolic
+    /// @prop C07,C05 @tier thorough @mode fast @cost 2 @funcs Ref::branch_acquire,Mutex::is_locked,rt::branch,Execution::schedule @bounds 3 threads, mutex held by thread 0, thread 2 calls lock(); third thread symbolic
     /// lock() on a held mutex blocks: the caller becomes Blocked with a pending operation on the mutex and loom asks for a context switch to a thread that can run (first half of the real acquire_lock, run through the real branch_acquire/schedule).
     #[cfg_attr(kani, kani::unwind(8))]
     fn mutex_lock_blocks_t2() {
